@@ -123,6 +123,61 @@ def _history_shard(items, K):
     return viols, obs
 
 
+WORDS = ("tag percent time timestamp identity system top date year month day hour minute second zone level type name value text status comment key data "
+         "count size position role source target version number char int float real double blob binary boolean json xml uuid interval external language "
+         "location owner schema sequence server share snapshot statistics storage stream tablespace unknown usage valid validate work write user order "
+         "group table index limit offset window filter first last rows range glob isnull notnull others indexed analyse variadic lookup proto pivot "
+         "qualify ilike lateral fetch freeze grant only some any array both leading trailing verbose concurrently authorization").split()
+
+
+def word_programs(rng, n):
+    """Programs whose identifiers are ordinary words that some dialects reserve and others do not: how they are
+    quoted depends on the target, so a per-process memo or a leaked option shows when targets alternate."""
+    out = []
+    for _ in range(n):
+        ws = rng.sample(WORDS, 4)
+        out.append("from `%s`\nselect {`%s`, `%s`, x = `%s` + 1}\nsort {`%s`}\n" % (ws[0], ws[1], ws[2], ws[3], ws[1]))
+    return out
+
+
+def _cross_shard(progs, seed, shard):
+    """Option history: every program is compiled for all 12 dialects inside one long-lived process (A, in a random
+    order of dialects) and inside another (B, in the reverse order); each (program, dialect) outcome must agree
+    between A and B and with the first call of a fresh process (sampled)."""
+    rng = core.shard_rng(seed, "C11:cross", shard)
+    A, B = core.Worker(), core.Worker()
+    viols, seen = [], set()
+    obs = {"cross_programs": 0, "cross_calls": 0, "cross_fresh": 0}
+    targets = ["sql." + d for d in core.DIALECTS]
+    for src in progs:
+        order = list(targets)
+        rng.shuffle(order)
+        oa = {t: A.call({"op": "outcome", "src": src, "target": t, "rq": False, "display": "plain"}).get("outcome") for t in order}
+        ob = {t: B.call({"op": "outcome", "src": src, "target": t, "rq": False, "display": "plain"}).get("outcome") for t in reversed(order)}
+        obs["cross_programs"] += 1
+        obs["cross_calls"] += 2 * len(order)
+        fresh = {}
+        for t in [order[-1], order[0], "sql.redshift"]:
+            fresh[t] = fresh_outcome(src, t, rq=False)
+            obs["cross_fresh"] += 1
+        for t in order:
+            cands = [("history_order", oa[t], ob[t])] + ([("history_vs_fresh", fresh[t], oa[t]), ("history_vs_fresh", fresh[t], ob[t])] if t in fresh else [])
+            for (mode, x, y) in cands:
+                if x is None or y is None or x == y:
+                    continue
+                what = diff_part(x, y)
+                shape = "options_history:" + t
+                key = (what, shape)
+                viols.append({"property": "C11", "symptom": "nondeterministic:" + what, "shape": shape,
+                              "witness": {"src": src, "target": t, "mode": "cross", "order": order} if key not in seen else None,
+                              "detail": "%s: same (source, %s) gave %r ... vs %r after a different sequence of earlier compilations" % (mode, t, _excerpt(x, y), _excerpt(y, x))})
+                seen.add(key)
+                break
+    A.close()
+    B.close()
+    return viols, obs
+
+
 def _excerpt(a, b):
     i = 0
     while i < min(len(a), len(b)) and a[i] == b[i]:
@@ -320,6 +375,11 @@ def run(tier, seed):
     for v, o in res:
         run.extend(v)
         core.merge_counts(obs, o)
+    cprogs = word_programs(rng, 160 if tier == "quick" else 4000) + [p for p in base if len(p) < 600][:160 if tier == "quick" else 3000]
+    res = core.run_shards(_cross_shard, [dict(progs=cprogs[i::N], seed=seed, shard=i) for i in range(N)])
+    for v, o in res:
+        run.extend(v)
+        core.merge_counts(obs, o)
     res = core.run_shards(_files_shard, [dict(dummy=0)])
     for v, o in res:
         run.extend(v)
@@ -334,7 +394,7 @@ def run(tier, seed):
             best[k] = v
     run.violations = list(best.values())
     run.coverage = {
-        "evaluations": obs.get("calls", 0) + obs.get("stress_calls", 0) + obs.get("orders", 0) + obs.get("fresh_processes", 0),
+        "evaluations": obs.get("calls", 0) + obs.get("stress_calls", 0) + obs.get("orders", 0) + obs.get("fresh_processes", 0) + obs.get("cross_calls", 0),
         "distinct_nontrivial": obs.get("nontrivial", 0),
         "rule": "each program's sequential model is its outcome (SQL or full error incl. display, RQ JSON, formatted text) as the first call of a fresh process; it is then re-run K times in a long-lived process with failing and panicking calls in between, in two more fresh processes, and from 16 threads released by a barrier (half of the stress runs being the process's first compile); "
                 "non-trivial = programs whose outcome is an error text, or that have named arguments / several table instances / query-header arguments (places where hash-map iteration order could show)",
@@ -362,6 +422,9 @@ def replay(case):
             v, _ = _files_shard(0)
         finally:
             PROJECTS = saved
+        return v
+    if case.get("mode") == "cross":
+        v, _ = _cross_shard([case["src"]] * 3, 0, 0)
         return v
     if case.get("mode") == "threads":
         v, _ = _thread_shard([([case["src"]] * 4, case["target"])], 16, True)
